@@ -197,6 +197,32 @@ Proof.
     + rewrite Hf. reflexivity.
 Qed.
 
+(* (history, the code before 1a867b2) what the OLD code saw of the file: an entry was visible iff no section
+   variable shadowed its key *)
+Lemma lookup_visible :
+  forall penv filel k,
+    lookup (visible_file penv filel) k = if shadowed penv k then None else lookup filel k.
+Proof.
+  intros penv filel k. unfold visible_file. induction filel as [|[k' v'] r IH]; simpl.
+  - destruct (shadowed penv k); reflexivity.
+  - destruct (String.eqb k' k) eqn:Heq.
+    + apply String.eqb_eq in Heq. subst k'. destruct (shadowed penv k) eqn:Hs; simpl.
+      * rewrite IH. reflexivity.
+      * rewrite String.eqb_refl. reflexivity.
+    + destruct (shadowed penv k') eqn:Hs'; simpl.
+      * exact IH.
+      * rewrite Heq. exact IH.
+Qed.
+
+Lemma visible_file_all :
+  forall penv filel, (forall k, In k (map fst filel) -> shadowed penv k = false) -> visible_file penv filel = filel.
+Proof.
+  intros penv filel Hall. unfold visible_file. induction filel as [|[k v] r IH]; simpl.
+  - reflexivity.
+  - rewrite (Hall k (or_introl eq_refl)). simpl. rewrite IH; [reflexivity|].
+    intros k' Hin. apply Hall. right. exact Hin.
+Qed.
+
 (* keys that are not overridden keep their defaults: no variable of that name, no entry in the file *)
 Theorem untouched_keys_keep_default :
   forall tbl penv filel cfg e,
@@ -210,17 +236,17 @@ Proof.
   split; intro Hl.
   - destruct (load_precedence env_of tbl penv filel cfg e Hnd Hin Hl) as [_ [_ Hd]].
     apply Hd; [unfold env_of; rewrite Hle; reflexivity | exact Hlf].
-  - destruct (load_precedence env_of_spec tbl penv filel cfg e Hnd Hin Hl) as [_ [_ Hd]].
-    apply Hd; [unfold env_of_spec; exact Hle | exact Hlf].
+  - destruct (load_precedence (env_of_spec tbl) tbl penv filel cfg e Hnd Hin Hl) as [_ [_ Hd]].
+    apply Hd; [unfold env_of_spec; rewrite Hle; reflexivity | exact Hlf].
 Qed.
 
 (* ------------------------------------------------------------------------------------------------ *)
 (* the code model against the contract: they agree unless a variable is set to the empty string *)
 
 Lemma env_of_eq_spec :
-  forall penv, (forall var, ~ In (var, "") penv) -> forall k, env_of penv k = env_of_spec penv k.
+  forall tbl penv, (forall var, ~ In (var, "") penv) -> forall k, env_of penv k = env_of_spec tbl penv k.
 Proof.
-  intros penv Hne k. unfold env_of, env_of_spec.
+  intros tbl penv Hne k. unfold env_of, env_of_spec.
   destruct (lookup penv (env_name k)) as [v|] eqn:Hl; [|reflexivity].
   destruct v as [|c r]; [|reflexivity].
   exfalso. apply (Hne (env_name k)). apply lookup_In. exact Hl.
@@ -231,10 +257,143 @@ Theorem load_model_meets_contract :
 Proof.
   intros tbl penv filel Hne. unfold load_model, load_spec, load_with.
   assert (Hm : map (fun e => option_map (fun v => (e_key e, v)) (effective env_of penv filel e)) tbl
-               = map (fun e => option_map (fun v => (e_key e, v)) (effective env_of_spec penv filel e)) tbl).
-  { apply map_ext. intro e. unfold effective, resolve. rewrite (env_of_eq_spec penv Hne). reflexivity. }
+               = map (fun e => option_map (fun v => (e_key e, v)) (effective (env_of_spec tbl) penv filel e)) tbl).
+  { apply map_ext. intro e. unfold effective, resolve. rewrite (env_of_eq_spec tbl penv Hne). reflexivity. }
   rewrite Hm. reflexivity.
 Qed.
+
+(* blank variables.  The type the contract looks up for a key of the table is that key's type. *)
+Lemma type_of_In :
+  forall tbl e, NoDup (map e_key tbl) -> In e tbl -> type_of tbl (e_key e) = e_type e.
+Proof.
+  intros tbl e. unfold type_of. induction tbl as [|a r IH]; intros Hnd Hin.
+  - destruct Hin.
+  - simpl. simpl in Hnd. inversion Hnd as [|x l Hnotin Hnd']. subst x l.
+    destruct Hin as [Hea | Her].
+    + subst a. rewrite String.eqb_refl. reflexivity.
+    + destruct (String.eqb (e_key a) (e_key e)) eqn:Heq.
+      * apply String.eqb_eq in Heq. exfalso. apply Hnotin. rewrite Heq. apply in_map. exact Her.
+      * apply IH; assumption.
+Qed.
+
+(* a blank variable of a bool / int / uint16 / duration key provides no value, for the code and for the
+   contract alike: the file's entry or the default is the effective value *)
+Theorem blank_variable_non_string :
+  forall tbl penv filel cfg e,
+    NoDup (map e_key tbl) -> In e tbl -> stringy (e_type e) = false ->
+    lookup penv (env_name (e_key e)) = Some "" ->
+    (load_model tbl penv filel = Some cfg \/ load_spec tbl penv filel = Some cfg) ->
+    (forall r, lookup filel (e_key e) = Some r -> lookup cfg (e_key e) = canon (e_type e) r)
+    /\ (lookup filel (e_key e) = None -> lookup cfg (e_key e) = Some (e_default e)).
+Proof.
+  intros tbl penv filel cfg e Hnd Hin Hty Hblank [Hl | Hl].
+  - destruct (load_precedence env_of tbl penv filel cfg e Hnd Hin Hl) as [_ [Hf Hd]].
+    assert (He : env_of penv (e_key e) = None) by (unfold env_of; rewrite Hblank; reflexivity).
+    split; [intros r Hr; apply (Hf r He Hr) | intro Hn; apply (Hd He Hn)].
+  - destruct (load_precedence (env_of_spec tbl) tbl penv filel cfg e Hnd Hin Hl) as [_ [Hf Hd]].
+    assert (He : env_of_spec tbl penv (e_key e) = None).
+    { unfold env_of_spec. rewrite Hblank. rewrite (type_of_In tbl e Hnd Hin). rewrite Hty. reflexivity. }
+    split; [intros r Hr; apply (Hf r He Hr) | intro Hn; apply (Hd He Hn)].
+Qed.
+
+(* HISTORY - the code before 1a867b2: with a non-empty variable named like a section above the key and the key's
+   own variable unset, the old code kept the DEFAULT whatever the file said *)
+Theorem section_variable_shadowed_file_old :
+  forall tbl penv filel cfg e,
+    NoDup (map e_key tbl) -> In e tbl ->
+    shadowed penv (e_key e) = true -> env_of penv (e_key e) = None ->
+    load_model_old tbl penv filel = Some cfg -> lookup cfg (e_key e) = Some (e_default e).
+Proof.
+  intros tbl penv filel cfg e Hnd Hin Hsh He Hl.
+  destruct (load_precedence env_of tbl penv (visible_file penv filel) cfg e Hnd Hin Hl) as [_ [_ Hd]].
+  apply Hd; [exact He|]. rewrite lookup_visible. rewrite Hsh. reflexivity.
+Qed.
+
+(* the repaired code: whatever variables are named like sections, the code model only consults the key's own
+   variable (env_only_own_variable below), so the old model and the new one agree exactly when nothing is shadowed *)
+Theorem load_model_old_eq :
+  forall tbl penv filel, (forall k, In k (map fst filel) -> shadowed penv k = false) ->
+    load_model_old tbl penv filel = load_model tbl penv filel.
+Proof.
+  intros tbl penv filel Hsh. unfold load_model_old, load_model. rewrite (visible_file_all penv filel Hsh). reflexivity.
+Qed.
+
+(* a variable that is not the variable of the key (blank or not, named like a section or like nothing) does
+   not reach the key: only lookup penv (env_name k) enters *)
+Theorem env_only_own_variable :
+  forall tbl penv1 penv2 k,
+    lookup penv1 (env_name k) = lookup penv2 (env_name k) ->
+    env_of penv1 k = env_of penv2 k /\ env_of_spec tbl penv1 k = env_of_spec tbl penv2 k.
+Proof.
+  intros tbl penv1 penv2 k Heq. unfold env_of, env_of_spec. rewrite Heq. split; reflexivity.
+Qed.
+
+(* WHY Load refuses: exactly the two reasons of load_refusal *)
+Lemma sequence_none :
+  forall (A : Type) (l : list (option A)), sequence l = None <-> In None l.
+Proof.
+  intros A l. induction l as [|a r IH]; simpl.
+  - split; [intro Hf; discriminate Hf | intro Hf; destruct Hf].
+  - destruct a as [x|].
+    + destruct (sequence r) as [r'|].
+      * split; [intro Hf; discriminate Hf|].
+        intros [Hf | Hin]; [discriminate Hf|]. apply IH in Hin. discriminate Hin.
+      * split; [intros _; right; apply IH; reflexivity | reflexivity].
+    + split; [intros _; left; reflexivity | reflexivity].
+Qed.
+
+Theorem load_refuses_iff :
+  forall envf tbl penv filel,
+    (load_with envf tbl penv filel = None <-> load_refusal envf tbl penv filel <> None)
+    /\ (load_refusal envf tbl penv filel = Some IllTypedValue
+        <-> exists e, In e tbl /\ effective envf penv filel e = None)
+    /\ (load_refusal envf tbl penv filel = Some BadLogLevel
+        <-> exists cfg l,
+              sequence (map (fun e => option_map (fun v => (e_key e, v)) (effective envf penv filel e)) tbl) = Some cfg
+              /\ lookup cfg "logging.level" = Some l /\ valid_level l = false).
+Proof.
+  intros envf tbl penv filel. unfold load_with, load_refusal.
+  destruct (sequence (map (fun e => option_map (fun v => (e_key e, v)) (effective envf penv filel e)) tbl))
+    as [cfg|] eqn:Hseq.
+  - destruct (lookup cfg "logging.level") as [l|] eqn:Hl.
+    + destruct (valid_level l) eqn:Hv.
+      * split; [split; [intro Hf; discriminate Hf | intro Hf; exfalso; apply Hf; reflexivity]|].
+        split; [split; [intro Hf; discriminate Hf|]|split; [intro Hf; discriminate Hf|]].
+        -- intros [e [Hin He]]. exfalso.
+           assert (Hnone : In None (map (fun e0 => option_map (fun v => (e_key e0, v)) (effective envf penv filel e0)) tbl)).
+           { apply in_map_iff. exists e. split; [rewrite He; reflexivity | exact Hin]. }
+           apply sequence_none in Hnone. rewrite Hnone in Hseq. discriminate Hseq.
+        -- intros [c' [l' [Hc [Hl' Hv']]]]. inversion Hc. subst c'. rewrite Hl in Hl'. inversion Hl'. subst l'.
+           rewrite Hv in Hv'. discriminate Hv'.
+      * split; [split; [intros _ Hf; discriminate Hf | reflexivity]|].
+        split; [split; [intro Hf; discriminate Hf|]|split; [|reflexivity]].
+        -- intros [e [Hin He]]. exfalso.
+           assert (Hnone : In None (map (fun e0 => option_map (fun v => (e_key e0, v)) (effective envf penv filel e0)) tbl)).
+           { apply in_map_iff. exists e. split; [rewrite He; reflexivity | exact Hin]. }
+           apply sequence_none in Hnone. rewrite Hnone in Hseq. discriminate Hseq.
+        -- intros _. exists cfg, l. repeat split; assumption.
+    + split; [split; [intro Hf; discriminate Hf | intro Hf; exfalso; apply Hf; reflexivity]|].
+      split; [split; [intro Hf; discriminate Hf|]|split; [intro Hf; discriminate Hf|]].
+      * intros [e [Hin He]]. exfalso.
+        assert (Hnone : In None (map (fun e0 => option_map (fun v => (e_key e0, v)) (effective envf penv filel e0)) tbl)).
+        { apply in_map_iff. exists e. split; [rewrite He; reflexivity | exact Hin]. }
+        apply sequence_none in Hnone. rewrite Hnone in Hseq. discriminate Hseq.
+      * intros [c' [l' [Hc [Hl' Hv']]]]. inversion Hc. subst c'. rewrite Hl in Hl'. discriminate Hl'.
+  - split; [split; [intros _ Hf; discriminate Hf | reflexivity]|].
+    split; [split; [|reflexivity]|split; [intro Hf; discriminate Hf|]].
+    + intros _. apply sequence_none in Hseq. apply in_map_iff in Hseq. destruct Hseq as [e [He Hin]].
+      exists e. split; [exact Hin|]. destruct (effective envf penv filel e); [discriminate He | reflexivity].
+    + intros [c' [l' [Hc _]]]. discriminate Hc.
+Qed.
+
+Example load_refuses_example :
+  load_refusal env_of [("logging.level", "string", "debug"); ("logging.format", "string", "console")]
+               [("BHS_LOGGING_LEVEL", "verbose")] [("logging.format", "json")] = Some BadLogLevel
+  /\ load_refusal env_of [("logging.level", "string", "debug"); ("http.port", "int", "8080")]
+                  [("BHS_HTTP_PORT", "abc")] [] = Some IllTypedValue
+  /\ load_refusal env_of [("logging.level", "string", "debug"); ("http.port", "int", "8080")]
+                  [("BHS_HTTP_PORT", ""); ("BHS_HTTP", "")] [("logging.level", "WARN")] = None.
+Proof. vm_compute. repeat split; reflexivity. Qed.
 
 (* ------------------------------------------------------------------------------------------------ *)
 (* which file is read: exactly the selected one (the model has no other file to read) *)
@@ -577,6 +736,7 @@ Theorem single_env_override_tbl :
     /\ (v <> "" -> lookup cfg (e_key e1) = canon (e_type e1) v).
 Proof.
   intros tbl Hok e1 e v cfg Hin1 Hin Hneq Hl.
+  assert (Hl' : load_with env_of tbl [(env_name (e_key e1), v)] [] = Some cfg) by exact Hl.
   destruct (table_ok_parts tbl Hok) as [_ [_ [Hkeys Hnames]]].
   assert (Hdiff : env_name (e_key e) <> env_name (e_key e1)).
   { intro Heq. apply Hneq. rewrite (env_name_injective_on tbl Hnames e e1 Hin Hin1 Heq). reflexivity. }
@@ -586,7 +746,7 @@ Proof.
     + simpl. intro Hf. exact Hf.
     + apply Hm. exact Hl.
   - intro Hv.
-    destruct (load_precedence env_of tbl [(env_name (e_key e1), v)] [] cfg e1 Hkeys Hin1 Hl) as [He _].
+    destruct (load_precedence env_of tbl [(env_name (e_key e1), v)] [] cfg e1 Hkeys Hin1 Hl') as [He _].
     apply He. unfold env_of. simpl. rewrite String.eqb_refl.
     destruct v as [|c r]; [exfalso; apply Hv; reflexivity | reflexivity].
 Qed.
@@ -630,3 +790,27 @@ Proof.
   intro Hall. specialize (Hall example_keys [("BHS_HTTP_AUTH_TOKEN", "")] []).
   vm_compute in Hall. discriminate Hall.
 Qed.
+
+(* HISTORY (like the old ban rule of C18): the code before 1a867b2 let a variable named like a SECTION hide the
+   file's entries of the whole section - for the OLD code model the agreement with the contract was false *)
+Theorem section_env_shadows_file_old_refuted :
+  ~ (forall tbl penv filel, (forall var, ~ In (var, "") penv) -> load_model_old tbl penv filel = load_spec tbl penv filel).
+Proof.
+  intro Hall. specialize (Hall example_keys [("BHS_HTTP", "x")] [("http.port", "81")]).
+  assert (Hne : forall var, ~ In (var, "") [("BHS_HTTP", "x")]).
+  { intros var [Hf | Hf]; [inversion Hf | destruct Hf]. }
+  specialize (Hall Hne). vm_compute in Hall. discriminate Hall.
+Qed.
+
+(* ... and for the repaired code the same sources agree with the contract *)
+Example section_env_no_longer_shadows :
+  load_model example_keys [("BHS_HTTP", "x")] [("http.port", "81")]
+  = load_spec example_keys [("BHS_HTTP", "x")] [("http.port", "81")].
+Proof. vm_compute. reflexivity. Qed.
+
+Example section_prefixes_example :
+  section_prefixes "db.postgres.host" "" = ["db"; "db.postgres"]
+  /\ shadowed [("BHS_DB_POSTGRES", "x")] "db.postgres.host" = true
+  /\ shadowed [("BHS_DB_POSTGRES", "")] "db.postgres.host" = false
+  /\ shadowed [("BHS_DB_POSTGRES", "x")] "db.engine" = false.
+Proof. vm_compute. repeat split; reflexivity. Qed.
